@@ -58,9 +58,11 @@ def shortest (m : Nat) (e : Int) (mantBits : Nat) (minExp : Int) : List Nat × I
     let okLo := lo ≥ 10 ^ (nd - 1) && inside (cand lo)
     let okHi := inside (cand (lo + 1))
     if okLo || okHi then
-      -- the closer one (twice the remainder against the denominator); ties to the lower
+      -- the closer one (twice the remainder against the denominator); an exact tie goes to the even
+      -- digit, as strconv does (ftoa.go roundShortest / ftoaryu.go: `cNextDigit == 5 && c0 && central&1 == 1`
+      -- rounds up); found by the C18 cross-validation against Rust's shortest digits
       let rem2 := 2 * (scaledNum - lo * scaledDen)
-      let pickHi := okHi && (!okLo || rem2 > scaledDen)
+      let pickHi := okHi && (!okLo || rem2 > scaledDen || (rem2 == scaledDen && lo % 2 == 1))
       let D := if pickHi then lo + 1 else lo
       if D == 10 ^ nd then return ([1], dp + 1)
       let ds := natDigits D
